@@ -27,7 +27,7 @@ pub struct Cfg {
     pub block: u64,  // 0 = None
     pub fsseed: u64,
     pub pool: Vec<String>,
-    pub via: String, // "direct" | "sim"
+    pub via: String, // "direct" | "sim" (software parks) | "sim-ret" | "sim-retlate" (software returns Ok)
 }
 
 impl Cfg {
@@ -154,7 +154,7 @@ fn main() {
         n += 1;
         writeln!(w, "CASE {} family={} seed={}", n, case.family, case.seed).unwrap();
         writeln!(w, "{}", case.cfg.line(&prop)).unwrap();
-        let lines = if case.cfg.via == "sim" {
+        let lines = if case.cfg.via.starts_with("sim") {
             simrun::run_case(&case)
         } else {
             exec::run_case(&case)
